@@ -1183,11 +1183,8 @@ pub(crate) fn rename_sheet_in_node(node: &mut Node, sheet_index: u32, new_name: 
                 }
             }
         }
-        Node::WrongRangeKind { sheet_name, .. } => {
-            if sheet_name.is_some() {
-                *sheet_name = Some(new_name.to_owned());
-            }
-        }
+        // A range over a sheet that does not exist keeps the name it was typed with
+        Node::WrongRangeKind { .. } => {}
 
         // Go next level
         Node::OpRangeKind { left, right } => {
